@@ -24,10 +24,10 @@ MUTANTS = [
 ]
 
 
-def build(ex):
+def build(ex, strict_poolerror=False):
     pool.install(ex)
     cons = pool.build_closure_contracts(ex)
-    run = pool.build_run_contract(ex)
+    run = pool.build_run_contract(ex, strict_poolerror)
     return [(cons[n], None) for n in ('get_next_idle_worker', 'try_enqueue', 'handle_death', 'handle_new_result', 'first_enqueue')] + [(run, None)]
 
 
